@@ -180,6 +180,15 @@ def eff_fps(tt):
   return r
 
 
+def eff_tick(tt):
+  """TTML2 ttp:tickRate: the specified value; else the effective frame rate if ttp:frameRate is specified; else 1"""
+  if tt.get("tick") is not None:
+    return F(tt["tick"])
+  if tt.get("fps") is not None:
+    return eff_fps(tt)
+  return F(1)
+
+
 def spellings(v, tt):
   """every supported way of writing the time v exactly: list of (syntax, text).  TTML2 12.3.1 <time-expression>, and
   TTML2 appendix on the media time base: frames count at frameRate * frameRateMultiplier, ticks at tickRate."""
@@ -212,21 +221,20 @@ def spellings(v, tt):
     ff = (v - whole) * eff
     if ff.denominator == 1 and ff < tt["fps"]:
       out.append(("clockf", "%02d:%02d:%02d:%02d" % (whole // 3600, (whole // 60) % 60, whole % 60, ff.numerator), (whole, ff.numerator)))
-  if tt.get("tick") is not None:
-    d = dec(v * tt["tick"], 3)
-    if d is not None:
-      out.append(("t", d + "t", v * tt["tick"]))
+  d = dec(v * eff_tick(tt), 3)
+  if d is not None:
+    out.append(("t", d + "t", v * eff_tick(tt)))
   return out
 
 
 def reinterpret(desc):
   """recomputes the meaning of every frame- and tick-based time expression from the document's current parameters (TTML2 defaults:
-  ttp:frameRate 30, ttp:frameRateMultiplier 1 1; ttp:tickRate 1 when no frame rate is given) - used when a parameter is taken away"""
+  ttp:frameRate 30, ttp:frameRateMultiplier 1 1; ttp:tickRate = the effective frame rate when ttp:frameRate is given, else 1) - used when a parameter is taken away"""
   tt = desc["tt"]
   eff = F(tt["fps"] if tt["fps"] is not None else 30)
   if tt["frm"] is not None:
     eff = eff * F(tt["frm"][0], tt["frm"][1])
-  tick = tt["tick"] if tt["tick"] is not None else 1
+  tick = F(tt["tick"]) if tt["tick"] is not None else eff if tt["fps"] is not None else F(1)
 
   def fix(t):
     if t is None:
@@ -401,7 +409,8 @@ def write_value(name, v, pick, aliases=True):
   if name == "Shear":
     return w_num(v, pick) + "%"
   if name == "FontFamily":
-    sep = pick([", ", ",", ", "])
+    # TTML2 <font-families>: white space may precede and follow the comma
+    sep = pick([", ", ",", ", ", " , ", " ,"])
     return sep.join(w_family_item(f, pick) for f in v)
   if name == "RubyReserve":
     if v is s.SpecialValues.none:
@@ -615,7 +624,7 @@ class _G:
   def time(self, positive=False):
     tt = self.tt
     if self.chance(self.prof["p_arbitrary"]):
-      kinds = ["ms"] + (["f", "cf"] if tt["fps"] else []) + (["t"] if tt["tick"] else [])
+      kinds = ["ms"] + (["f", "cf"] if tt["fps"] else []) + ["t"]
       k = self.d(st.sampled_from(kinds))
       lo = 1 if positive else 0
       if k == "cf":
@@ -632,7 +641,8 @@ class _G:
       elif k == "f":
         v = F(self.d(st.integers(lo, 12 * tt["fps"]))) / eff_fps(tt)
       else:
-        v = F(self.d(st.integers(lo, 12 * min(tt["tick"], 1000))) * max(1, tt["tick"] // 1000), tt["tick"])
+        tk = eff_tick(tt)
+        v = F(self.d(st.integers(lo, int(12 * min(tk, 1000)))) * max(1, int(tk) // 1000)) / tk
     else:
       v = self.d(st.sampled_from(LATTICE_POS if positive else LATTICE))
     cands = spellings(v, tt)
@@ -735,6 +745,8 @@ class _G:
       if self.region_ids and self.chance(p_ref):
         n["region"] = self.d(st.sampled_from(self.region_ids))
     assoc = assoc or n["region"] is not None or not self.region_ids
+    if kind == "span" and n["ruby"] is None and self.chance(0.06):
+      n["ruby"] = "none"              # tts:ruby="none", the initial value: an ordinary span
     n["refs"] = self.refs(prof["elem_refs"])
     n["attrs"] = self.attrs(prof["attrs"], CONTENT_PROPS, exclude=("Display",) if plain else ())
     if not plain and n["tc"] != "seq":
@@ -1189,7 +1201,7 @@ def to_xml(desc, corrupt=None):
 
 # ---------------------------------------------------------------------------------------------- translation into a DocSpec
 
-RUBY_KIND = {v: k for k, v in RUBY_TOKEN.items()}
+RUBY_KIND = dict({v: k for k, v in RUBY_TOKEN.items()}, none="span")
 
 
 class Timing:
@@ -1406,7 +1418,9 @@ def to_docspec(desc, info=None):
     sp = n["space"] or space
     lg = n["lang"] if n["lang"] is not None else lang
     kind = n["kind"] if n["ruby"] is None else RUBY_KIND[n["ruby"]]
-    if n["ruby"] is not None:
+    if n["ruby"] == "none":
+      feat.add("ruby-none-span")
+    elif n["ruby"] is not None:
       feat.add("ruby")
     out = dict(kind=kind, id=n["id"], begin=None if (b == 0 or kind == "br") else b, end=None if kind == "br" else e, region=None,
                styles=specified(n), anims=anims(n), kids=[], space=sp, lang=lg)
